@@ -1,7 +1,7 @@
 (* C16 — the BER decoder is safe on arbitrary bytes: error or value, never a
    panic, never an out-of-range access, always terminating. *)
-From Coq Require Import List ZArith Bool.
-From Verif Require Import Common.Outcome Common.Bytes Ber.Model Ber.X690 Ber.ParseHdr Ber.Safety Ber.WrongType.
+From Coq Require Import List ZArith Bool Lia.
+From Verif Require Import Common.Outcome Common.Bytes Common.BytesLemmas Ber.Model Ber.X690 Ber.ParseHdr Ber.Safety Ber.WrongType Ber.ParsePrefix Ber.Roundtrip.
 Import ListNotations.
 Open Scope Z_scope.
 
@@ -48,6 +48,29 @@ Theorem C16_cut_inside_contents : forall t p c k tn len content,
   dec t p (hdr c k tn len ++ content) = Err.
 Proof. exact dec_cut_content. Qed.
 Print Assumptions C16_cut_inside_contents.
+
+(* ... at full strength: every proper prefix of a complete element -- cut inside the identifier
+   octets (high tag numbers included), inside the length octets or inside the contents -- is an
+   error, whatever the target type and parameters *)
+Theorem C16_every_proper_prefix_is_error : forall t p c k tn content m,
+  cls_ok c -> 0 <= tn < 2 ^ 63 -> zlen content < 2 ^ 32 ->
+  (m < length (hdr c k tn (zlen content) ++ content))%nat ->
+  dec t p (firstn m (hdr c k tn (zlen content) ++ content)) = Err.
+Proof. exact dec_proper_prefix. Qed.
+Print Assumptions C16_every_proper_prefix_is_error.
+
+(* in particular every truncation of what the encoder produces (for values inside the hypotheses
+   of C05_roundtrip), decoded into any type *)
+Theorem C16_truncated_encoding_is_error : forall t p v bs t' p' m,
+  ok t p v = true -> enc t p v = Ok bs -> zlen bs < 2 ^ 32 -> (m < length bs)%nat ->
+  dec t' p' (firstn m bs) = Err.
+Proof.
+  intros t p v bs t' p' m Hok He Hs Hm.
+  destruct (roundtrip t p v bs Hok He Hs) as [_ [c [k [tn [content [E [Hc [Ht _]]]]]]]]. subst bs.
+  apply dec_proper_prefix; try assumption.
+  rewrite zlen_app in Hs. pose proof (zlen_nonneg (hdr c k tn (zlen content))). lia.
+Qed.
+Print Assumptions C16_truncated_encoding_is_error.
 
 (* truncated header / long-form length running past the end *)
 Example C16_truncated : dec TInt p0 [2] = Err /\ dec TInt p0 [2; 130; 1] = Err /\
